@@ -119,7 +119,7 @@ func c01Command(rc *RunCtx, t *simrt.Tape) {
 	for _, r := range fc.Recs {
 		if format <= fmFastq {
 			e := r
-			if !fc.Shape.JSONHead {
+			if !fc.Shape.hasHead() {
 				e.Annot = nil
 			}
 			ev = append(ev, irecOf(e).canon())
